@@ -143,7 +143,21 @@ async fn exchange(role: Role, seed: Option<u64>, rep: &mut Report) -> Result<(Ou
         for _ in 0..rng.usize(0, 2) {
             shapes.push("unknown-capsule".into());
             let ct = if rng.chance(1, 2) { 0x1f * rng.below(1 << 20) + 0x17 } else { 0x2844 + rng.below(1000) };
-            bytes.extend(h3::frame(h3::FRAME_DATA, &capsule::encode(ct, &{ let n = rng.usize(0, 40); rng.bytes(n) })));
+            if rng.chance(1, 3) {
+                // an unknown capsule continuing in the next DATA frame (RFC 9297 §3.2: capsules are
+                // carried in the data stream, DATA frame boundaries mean nothing); the part in the
+                // first frame looks like a close capsule, the part in the second like a capsule too
+                shapes.push("unknown-capsule-spanning-frames".into());
+                let body = capsule::close(0xBAD, b"inside an unknown capsule");
+                let rest = capsule::encode(0x29 * 5 + 0x17, &[0u8; 8]);
+                let mut first = rv::enc(ct);
+                first.extend(rv::enc((body.len() + rest.len()) as u64));
+                first.extend(&body);
+                bytes.extend(h3::frame(h3::FRAME_DATA, &first));
+                bytes.extend(h3::frame(h3::FRAME_DATA, &rest));
+            } else {
+                bytes.extend(h3::frame(h3::FRAME_DATA, &capsule::encode(ct, &{ let n = rng.usize(0, 40); rng.bytes(n) })));
+            }
         }
     }
     bytes.extend(h3::frame(h3::FRAME_DATA, &capsule::close(CODE, REASON)));
